@@ -101,6 +101,7 @@ MeshEnd    == IsEvent("meshend") /\ Judge(MeshEndOK(E, st.mesh)) /\ st' = StInit
 Area       == Stateless("area", AreaOK(E))
 AreaMeta   == Stateless("areameta", AreaMetaOK(E))
 Boundary   == Stateless("boundary", BoundaryOK(E))
+UnwrapEv   == Stateless("unwrap", UnwrapOK(E))
 
 FaceCentre == Stateless("facecentre", FaceCentreOK(E))
 FaceAngle  == Stateless("faceangle", FaceAngleOK(E))
@@ -124,7 +125,7 @@ TraceNext ==
   \/ QuintMap \/ QuintMapPin \/ Call
   \/ ProjStep \/ Pair \/ Purity \/ Instances
   \/ FaceCentre \/ FaceAngle \/ Nearest \/ FrameCells \/ FrameEnd \/ Reflected \/ Sector \/ GoldenGeom \/ GoldenLookup
-  \/ Lookup \/ Interior1 \/ Interior2 \/ Centre \/ Owners \/ LocalMesh \/ MeshCells \/ MeshEnd \/ Area \/ AreaMeta \/ Boundary
+  \/ Lookup \/ Interior1 \/ Interior2 \/ Centre \/ Owners \/ LocalMesh \/ MeshCells \/ MeshEnd \/ Area \/ AreaMeta \/ Boundary \/ UnwrapEv
 
 TraceSpec == TraceInit /\ [][TraceNext]_vars
 
